@@ -3,7 +3,7 @@
 from props import _con
 
 CLAUSES = ["C12_frame", "C12_reload"]
-NSETUP = 7
+NSETUP = 8
 DEPTH_A = (3, 4)
 DEPTH_B = (2, 3)
 WALK = 5
@@ -36,7 +36,8 @@ def run(tier, seed):
                           dict(base, MaxDepth=DEPTH_B[0 if quick else 1]),
                           dict(base, MaxDepth=WALK), nsetup=ns, walk_len=ns + WALK,
                           nwalks=NWALKS[0 if quick else 1], seed=seed, clauses=CLAUSES,
-                          extra_behaviours=reload_behaviours(quick))
+                          extra_behaviours=reload_behaviours(quick),
+                          extra_B=[{"Scenario": '"c12b"', "MaxDepth": 2 if quick else 3}])
 
 
 def replay(path):
